@@ -43,6 +43,8 @@ struct RunOptions {
 };
 
 RunResult run_plan(const Plan &plan, const RunOptions &opt, Counters &cnt);
+void set_isolate(bool on);  // default on: every world in a pristine process image
+void add_counters_public(Counters &a, const Counters &b);
 
 sj::Value counters_to_json(const Counters &c);
 sj::Value result_to_json(const RunResult &r, long run_index, uint64_t seed);
